@@ -26,27 +26,27 @@ CHECKS = {
              "out of range} with delegated constructors followed; (X6) every loop has a counter/container/stream "
              "bound or an audited termination argument; (X2b) strchr membership excludes NUL; (X8) no "
              "fast-math/no-exceptions flags; (X7) interval analysis of fixed-buffer and alphabet indexes in the five "
-             "codecs. These hold for every input because they hold for every path.",
+             "codecs. These hold for every input because they hold for every path. Added: (X3m) documented strong guarantee of NearestNeighbor::Initialize/Load; (X7c) with NaN and infinity tracked through the interval analysis, no floating value that may be NaN or infinite is converted to an integer or used to index in the codecs and UTMUPS; (X9) encoder buffers are completely filled for every precision; (X10) every accepted grid code decodes inside the domain; X4 sees through one-line boolean helpers and lambdas; X5 also offers latitude aliases modulo 360.",
         note="NOT decided: general memory safety, signed overflow, propagation of NaN to the outputs, std-library "
              "logic errors other than X2b. Assumes A-ELLIPTIC-ARGS, A-SINGLETON-NOTHROW; bad_alloc is outside the "
              "contract. One known finding (Utility::readarray partial write).",
-        technique="CFG typestate + call-graph may-throw/may-write summaries; Kleene/witness abstract evaluation of guards",
+        technique="CFG typestate + call-graph may-throw/may-write summaries; Kleene/witness abstract evaluation of guards + interval analysis with NaN/infinity tracking, partial evaluation, path-wise range interpretation",
         ref="3.4"),
     'C04': dict(
         text="Decides the error clauses of the property for UTMUPS: a failing call leaves its output arguments "
              "unchanged (X3 commit-last typestate over Forward/Reverse/Transfer/DecodeZone/DecodeEPSG...), only "
-             "GeographicErr is thrown (X1), and no guard throws because an argument is NaN (X4).",
+             "GeographicErr is thrown (X1), and no guard throws because an argument is NaN (X4). Also (W1) every output argument written on some returning path is written on every returning path (DecodeEPSG, DecodeZone, Forward, Reverse, Transfer), (T4) the range and false-origin tables agree with the MGRS constants, and (X7c) no floating value that may be NaN or infinite is converted to an integer in StandardZone.",
         note="Zone selection, false origins, ranges and the round trip are numerical/combinatorial and NOT decided "
              "by this check; it decides the 'fails cleanly / NaN does not throw' clause only.",
-        technique="CFG typestate (commit-last) + Kleene NaN evaluation of throw guards",
+        technique="CFG typestate (commit-last) + Kleene NaN evaluation of throw guards + must-write dataflow (output totality) + constant-relation table check",
         ref="3.4, 4 (C04)"),
     'C05': dict(
         text="Decides the error clauses for MGRS: outputs committed last on every path of Forward/Reverse/Decode "
              "(X3), only GeographicErr (X1), NaN never raises (X4), the alphabet membership helper rejects "
              "NUL (X2b), the MGRS alphabets are injective and sized to their index ranges (T3), and an interval "
-             "analysis (X7) proves every write into the fixed buffer mgrs1 and every decided alphabet index in range.",
+             "analysis (X7) proves every write into the fixed buffer mgrs1 and every decided alphabet index in range. Also (W1) output totality and (X9) buffer fill completeness: for every precision and on every path each of the characters of mgrs1 handed over was stored to.",
         note="Digit truncation, band/row consistency and the accept/reject set of strings are NOT decided.",
-        technique="CFG typestate (commit-last) + Kleene NaN evaluation + interval analysis of buffer/alphabet indexes",
+        technique="CFG typestate (commit-last) + Kleene NaN evaluation + interval analysis of buffer/alphabet indexes + partial evaluation of buffer fills",
         ref="3.4, 4 (C05)"),
     'C10': dict(
         text="Decides the error clauses for the text parsers (DMS, Utility::val/fract/nummatch/ParseLine/date, "
@@ -55,7 +55,7 @@ CHECKS = {
              "is inside a try whose std::exception handler emits an ERROR line, sets the non-zero status main returns, "
              "and a line terminator is written on both paths; and (S1) in the symbol-replacement sequence of DMS::Decode "
              "no earlier pattern occurs inside a later one (else a documented multi-byte symbol is mangled before it "
-             "can match).",
+             "can match). Also (W1) output totality of the parsers' output arguments.",
         note="Closure of format->parse, carry normalisation and half-ulp fidelity are NOT decided.",
         technique="CFG typestate (commit-last) + throw-site audit",
         ref="3.4, 4 (C10)"),
@@ -65,10 +65,10 @@ CHECKS = {
              "their consumers (T3), and (X7) an interval analysis over the encoders - ranges established by the throwing "
              "guards, clamps and the documented range of AngNormalize - proves every write into the fixed char buffers "
              "and every decided alphabet index inside its array; an index whose attained range leaves the alphabet is "
-             "a violation (this found Georef::Forward(lat, 180) emitting the terminating NUL).",
+             "a violation (this found Georef::Forward(lat, 180) emitting the terminating NUL). Added: (W1) output totality; (X9) buffer fill completeness of the four encoders for every precision and path; (X10) for every string length and accepting path of GARS/Georef/Geohash::Reverse the decoded position lies in -90 <= lat < 90, -180 <= lon < 180 (path-wise range interpretation, one full-range variable per looked-up character); (X7c) no possibly NaN/infinite value is converted to an integer (this found the crash for lon = +-inf).",
         note="Containing-cell arithmetic, prefix property and full consumption of the input are NOT decided. X7 leaves "
              "indexes that need relational reasoning undecided (listed in the evidence), never guessed.",
-        technique="CFG typestate (commit-last) + Kleene NaN evaluation + interval analysis of buffer/alphabet indexes",
+        technique="CFG typestate (commit-last) + Kleene NaN evaluation + interval analysis of buffer/alphabet indexes + partial evaluation of buffer fills + path-wise range interpretation of decoders (NaN/infinity tracked)",
         ref="3.4, 4 (C18)"),
     'C12': dict(
         text="Decides the mask/capability discipline for every path, mask and capability set at once: (M1) the six mask "
@@ -81,18 +81,18 @@ CHECKS = {
              "does not establish it (this is what makes an unrequested / uncapable / uninitialised query return NaN "
              "or leave outputs untouched rather than a number); (M2c) conversely every requested output within the "
              "capabilities is written on every normally returning path; (M6) a member bound to a conditionally written "
-             "output position is given a fresh value first (no stale third point).",
+             "output position is given a fresh value first (no stale third point). (M7) a placeholder-initialised local computed only under mask bits never reaches an output, a return value or a branch on a path that does not establish those bits, globally by the licence dataflow and locally among the statements of one block (so the value returned for one quantity cannot depend on which others were requested); (M8) the line factories of the two solvers derive the same named capabilities for every request.",
         note="NOT decided: numerical equality of the alternative evaluation paths a mask selects, arc/distance position "
              "coincidence, the stored third point. Assumes A-ENUM-UNION (masks are unions of enumerators), A-LOOP-FILL. "
              "Initialisation conditions of members are derived from the constructors/LineInit by the tool, not frozen.",
-        technique="bit-level abstract interpretation of masks on the clang CFG + conditional-initialisation (licence/taint) dataflow",
+        technique="bit-level abstract interpretation of masks on the clang CFG + conditional-initialisation (licence/taint) dataflow + witness interpretation of the sibling line factories",
         ref="3.2, 3.3"),
     'C02': dict(
         text="Decides two structural clauses: (L1) on the inverse path (GenInverse, InverseLine, Lengths, InverseStart, "
              "Lambda12, series and exact) no conditionally initialised value - series state when exact=true, the "
              "delegated solver when it was never built, a local that a masked callee did not write - reaches an output, "
              "a return value or a branch condition; (X6) every loop of the two solvers, including the Newton/bisection "
-             "loop, has a counter cap.",
+             "loop, has a counter cap. Also (M8) sibling agreement of the line factories (InverseLine adds DISTANCE exactly when DISTANCE_IN is requested, in both solvers).",
         note="NARROW: convergence, shortestness, symmetries and the canonicalisation bookkeeping are numerical and NOT decided.",
         technique="conditional-initialisation (licence/taint) dataflow over the clang CFG + loop classification",
         ref="3.3 L1, 3.4 X6, 4 (C02)"),
@@ -117,11 +117,11 @@ CHECKS = {
              "state from const methods is under !_threadsafe, and _threadsafe is set only after CacheAll()+close(); "
              "(K5) every stream use is inside a try converting to GeographicErr; (K6) the area cache is read "
              "big-endian; (T5) the three cubic least-squares tables are exact projectors on the 12-point stencil "
-             "(integer algebra on the extracted tables, stencil order and Horner form).",
+             "(integer algebra on the extracted tables, stencil order and Horner form). (K7) raster bounds by a linear-relational path analysis: on every path of height (rawval inlined) and CacheArea, for all raster sizes the constructor accepts and all positions, every file position is inside the raster, every cache access inside the cache and every block read inside one raster row and one cache row.",
         note="NOT decided: that the gathered pixels are the right ones (longitude wrap, pole reflection, area-cache "
              "geometry), continuity/linearity as numbers, ConvertHeight, header validation arithmetic. Assumes "
              "A-GEOID-FULLCACHE and A-RAWVAL-BIGENDIAN.",
-        technique="backward slicing + path facts on the clang CFG + effect analysis + exact integer table algebra",
+        technique="backward slicing + path facts on the clang CFG + effect analysis + exact integer table algebra + linear-relational path analysis (Fourier-Motzkin entailment) of raster indexes",
         ref="3.6, 3.5 T5"),
     'C17': dict(
         text="Decides the interface clause between the constructions and the solvers: in AzimuthalEquidistant, Gnomonic, "
@@ -144,7 +144,7 @@ CHECKS = {
              "tables of every other order the source carries under #if (a Taylor coefficient cannot depend on the "
              "truncation order). A wrong high-order coefficient - the first risk the property names - breaks an equation. "
              "Also (L1) the exact=true delegation licence on the direct path and (M1) the enum agreement on which "
-             "exact=true lines depend.",
+             "exact=true lines depend. Also (M8) the line factories of Geodesic and GeodesicExact (Line, GenDirectLine, DirectLine, ArcDirectLine, InverseLine) pass the same named capabilities to the line they construct, for every requested set and both values of arcmode (witness interpretation of the integer code).",
         note="NARROW: does not decide that the result lies on the geodesic, ranges of longitude/azimuth or circuit "
              "counting. Consistent tables need not be the right series. Layout descriptions in glv/rules/tab.py "
              "are trusted (they must consume each table exactly or the check is inconclusive).",
@@ -153,7 +153,7 @@ CHECKS = {
     'C03': dict(
         text="Sibling agreement (as C01) for the tables behind m12, M12, M21 and S12: A2, C2 and the C4 area series; plus the "
              "mask discipline restricted to these outputs: written only when requested (M2), requested wherever an "
-             "overload returns them (M4), computed only from capability state that was initialised (M3).",
+             "overload returns them (M4), computed only from capability state that was initialised (M3). Also (M7) mask independence of intermediates: a placeholder-initialised local (AB1, A1, A2, m0x) computed only under mask bits G1 never reaches an output on a path that does not establish G1.",
         note="NARROW: Jacobi-equation values, addition rules, the DST area of the exact solver are not decided.",
         technique="contradiction rule over sibling constant tables (exact rational comparison across series orders)",
         ref="3.5 T1, 4 (C03)"),
@@ -165,14 +165,14 @@ CHECKS = {
         ref="3.5 T1, 4 (C06)"),
     'C09': dict(
         text="Sibling agreement of the rhumb area matrix (orders 4..8) and of the AuxLatitude blocks and radius series "
-             "the rhumb code converts through (orders 4, 6, 8).",
+             "the rhumb code converts through (orders 4, 6, 8). Also (F1) every call from Rhumb / RhumbLine into AuxLatitude / DAuxLatitude passes the solver's own _exact flag (never the default, which silently selects the order-6 series).",
         note="NARROW: every numerical clause (course, length, area value, pole handling) is not decided.",
         technique="contradiction rule over sibling constant tables (exact rational comparison across series orders)",
         ref="3.5 T1, 4 (C09)"),
     'C15': dict(
         text="Sibling agreement of all 30 AuxLatitude conversion blocks and both radius series (533 monomials) and "
              "consistency of the ptrs[] offsets with the layout the consumer loop implies (T2); and (F1) every call from "
-             "Ellipsoid into AuxLatitude passes exact = true, as the class documents (17 call sites).",
+             "Ellipsoid into AuxLatitude passes exact = true, as the class documents (17 call sites). F1 also covers the calls from Rhumb / RhumbLine (own _exact flag).",
         note="NARROW: values of the conversions, Ellipsoid and EllipticFunction are not decided. 273 order-6 monomials "
              "have a single sibling (order 8).",
         technique="contradiction rule over sibling constant tables + layout consistency of offset table",
